@@ -34,6 +34,9 @@ type fcfg struct {
 	Deny    []string
 	Mapping map[string]string
 	Group   string
+	// hand the formatter explicit EMPTY (non-nil) lists / mapping where the configuration has
+	// none - what a JSON configuration with "allow": [] yields - instead of nil ones
+	ExplicitEmpty bool
 }
 
 func (c fcfg) backend() *config.Backend {
@@ -46,6 +49,17 @@ func (c fcfg) backend() *config.Backend {
 			b.Mapping[k] = v
 		}
 	}
+	if c.ExplicitEmpty {
+		if b.AllowList == nil {
+			b.AllowList = []string{}
+		}
+		if b.DenyList == nil {
+			b.DenyList = []string{}
+		}
+		if b.Mapping == nil {
+			b.Mapping = map[string]string{}
+		}
+	}
 	return b
 }
 
@@ -55,11 +69,13 @@ func (c fcfg) coq() string {
 }
 
 func (c fcfg) js() obj {
-	return obj{"target": c.Target, "allow": c.Allow, "deny": c.Deny, "mapping": c.Mapping, "group": c.Group}
+	return obj{"target": c.Target, "allow": c.Allow, "deny": c.Deny, "mapping": c.Mapping, "group": c.Group, "absent_lists_given_as_empty_non_nil": c.ExplicitEmpty}
 }
 
-func (c fcfg) targetOnly() fcfg { return fcfg{Target: c.Target} }
-func (c fcfg) filterOnly() fcfg { return fcfg{Target: c.Target, Allow: c.Allow, Deny: c.Deny} }
+func (c fcfg) targetOnly() fcfg { return fcfg{Target: c.Target, ExplicitEmpty: c.ExplicitEmpty} }
+func (c fcfg) filterOnly() fcfg {
+	return fcfg{Target: c.Target, Allow: c.Allow, Deny: c.Deny, ExplicitEmpty: c.ExplicitEmpty}
+}
 
 // names of the (sanitised) mapping overlap: outside the quantifier of C06
 func (c fcfg) overlapping() bool {
@@ -393,6 +409,8 @@ func main() {
 	formatRuns := 0
 
 	fmtCase := func(stream string, c fcfg, doc obj) {
+		// every other case: absent lists are handed over as explicit empty ones ("allow": [])
+		c.ExplicitEmpty = c.ExplicitEmpty || w.N()%2 == 1
 		ots := runs(func() obsv { return runFormat(c.targetOnly(), doc) })
 		ofs := runs(func() obsv { return runFormat(c.filterOnly(), doc) })
 		os := runs(func() obsv { return runFormat(c, doc) })
@@ -670,11 +688,12 @@ func main() {
 	w.Meta["format_runs"] = formatRuns
 	w.Meta["repeats_per_configuration"] = repeats
 	w.Meta["inputs_with_run_dependent_output"] = orderDependent
-	w.Close(fmt.Sprintf("corpus %d documents x %d configurations; small scope: every document over the keys x every allow and deny list of <=2 paths (see small_scope) and 8 shaping configurations; random documents (depth<=6, width<=5, keys empty/dotted/non-ASCII, arrays, null) x random target/allow|deny/mapping/group with paths walking the document; decoder+formatter through the http proxy and the gin pipeline (arrays/objects/null/scalars x is_collection); backends whose extra_config has shapes that do / do not select the flatmap formatter (NewEntityFormatter's choice is modelled; only the entity formatter is judged); the consumer scribbles into every returned Data map after copying it; concurrent first use of fresh formatters with 50-200 listed paths (child process); endpoints with 2-3 backends in a child process, arrival order at the merge imposed, target misses arriving first (own options each; disjoint and overlapping top-level keys; failing decoders) through the default factory's parallel merge and the gin JSON render, client body compared with the composed model (overlap winner open) and with the boolean no-leak form; instance reuse: one formatter / http proxy per configuration driven through sequences of 3-9 related documents (corpus + random) and hit by 8 goroutines x 150 calls (each distinct (document, observation) pair is a case); every other Format configuration run %d times on fresh copies (map order), a case carries the first observation and whether all runs agreed; nontrivial = some option set", len(corpusDocs), len(corpusCfgs), repeats), true)
+	w.Close(fmt.Sprintf("corpus %d documents x %d configurations; small scope: every document over the keys x every allow and deny list of <=2 paths (see small_scope) and 8 shaping configurations; random documents (depth<=6, width<=5, keys empty/dotted/non-ASCII, arrays, null) x random target/allow|deny/mapping/group with paths walking the document; decoder+formatter through the http proxy and the gin pipeline (arrays/objects/null/scalars x is_collection); backends whose extra_config has shapes that do / do not select the flatmap formatter (NewEntityFormatter's choice is modelled; only the entity formatter is judged); every other configuration hands absent lists over as explicit empty (non-nil) ones, as a JSON configuration with \"allow\": [] does; the consumer scribbles into every returned Data map after copying it; concurrent first use of fresh formatters with 50-200 listed paths (child process); endpoints with 2-3 backends in a child process, arrival order at the merge imposed, target misses arriving first (own options each; disjoint and overlapping top-level keys; failing decoders) through the default factory's parallel merge and the gin JSON render, client body compared with the composed model (overlap winner open) and with the boolean no-leak form; instance reuse: one formatter / http proxy per configuration driven through sequences of 3-9 related documents (corpus + random) and hit by 8 goroutines x 150 calls (each distinct (document, observation) pair is a case); every other Format configuration run %d times on fresh copies (map order), a case carries the first observation and whether all runs agreed; nontrivial = some option set", len(corpusDocs), len(corpusCfgs), repeats), true)
 }
 
 // ---- decoder + formatter: http proxy level and whole pipeline behind gin ----
 func respCase(w *out.Writer, stream string, c fcfg, isCollection bool, payload interface{}, client bool) {
+	c.ExplicitEmpty = c.ExplicitEmpty || w.N()%2 == 1
 	body, err := json.Marshal(payload)
 	if err != nil {
 		panic(err)
